@@ -28,7 +28,7 @@ def may_raise(node) -> bool:
 
 
 class Node:
-    __slots__ = ('id', 'kind', 'ast', 'label', 'polarity_of', 'copy')
+    __slots__ = ('id', 'kind', 'ast', 'label', 'polarity_of', 'copy', 'owner')
 
     def __init__(self, id_, kind, ast_=None, label='', copy=0):
         self.id = id_
@@ -92,6 +92,7 @@ class CFG:
     # ------------------------------------------------------------------ construction helpers
     def _new(self, kind, ast_=None, label='', copy=0) -> Node:
         n = Node(self._n, kind, ast_, label, copy)
+        n.owner = self._inline_stack[-1]  # FunctionDef whose body the node belongs to (an inlined helper or the function itself)
         self.nodes[self._n] = n
         self.g.add_node(self._n)
         self._n += 1
